@@ -101,6 +101,12 @@ def _eval_extracted(case, res):
         res.v(f"raises[{mode}]:{out.type}@{out.site}", f"{out!r} for markup={m!r}")
     elif _SENT.sub("", out) != (m if m else cleaned):
         res.v(f"not-additive[{mode}]:extracted", f"markup={m!r} steps={steps} spans={[a[0] for a in anns]} -> {out!r}")
+    # the same spans on the cleaned text alone (no source text): the plain-text path of the annotator
+    out0 = call(annotate_citations, cleaned, anns, unbalanced_tags=mode, use_dmp=case.get("dmp", True))
+    if isinstance(out0, Raised):
+        res.v(f"raises[{mode}]:{out0.type}@{out0.site}", f"{out0!r} for cleaned text {cleaned!r}")
+    elif _SENT.sub("", out0) != cleaned:
+        res.v(f"not-additive[{mode}]:extracted-plain", f"text={cleaned!r} spans={[a[0] for a in anns]} -> {out0!r}")
     res.nontrivial = len(cites) >= 1 and m != cleaned
     return res
 
